@@ -1,7 +1,7 @@
 #!/usr/bin/env python3
 """Writes /verif/seeded/README.md from meta.json files, RESULTS.json and PRESERVING.json."""
 import json, glob, os
-V="/verif/seeded"
+V=os.path.join(os.path.dirname(os.path.dirname(os.path.abspath(__file__))),"seeded")
 res=json.load(open(V+"/RESULTS.json")) if os.path.exists(V+"/RESULTS.json") else {}
 out=["# Seeded changes and what detects them","",
 "Each directory `<ID>-<n>/` holds a change to daac-tools/vibrato written by a fresh sub-agent that was given only the property text and a scratch worktree",
@@ -20,9 +20,14 @@ p=V+"/PRESERVING.json"
 if os.path.exists(p):
     pr=json.load(open(p))
     out+=["","## Property-preserving changes (every check must stay silent)","",
-          "Hand-made edits that change behaviour only where the properties leave it unspecified; each was run against all twenty quick checks.","",
+          "Edits that change behaviour only where the properties leave it unspecified (`preserving/ok_*.diff`: hand-made; `preserving/agentN-okM.diff`: written by eight sub-agents that saw the property texts, three each,",
+          "with their reasoning in `preserving/agentN-NOTES.md`); `tools/run_preserving.py` runs each against all twenty quick checks.","",
           "| change | what it alters | checks that raised an alarm |","|---|---|---|"]
-    for k,v in pr.items():
-        out.append(f"| {k} | {v['what']} | {', '.join(v['alarms']) or 'none'} |")
+    for k,v in sorted(pr.items()):
+        al=[a["check"] if isinstance(a,dict) else a for a in v.get("alarms",[])]
+        extra=""
+        if v.get("inconclusive"): extra+=f" (inconclusive: {', '.join(v['inconclusive'])})"
+        if v.get("error"): extra+=f" ({v['error']})"
+        out.append(f"| {k} | {v['what']} | {(', '.join(al) or 'none')+extra} |")
 open(V+"/README.md","w").write("\n".join(out)+"\n")
 print("written", len(out), "lines")
